@@ -4,6 +4,7 @@ package value
 
 import (
 	"bytes"
+	"io"
 
 	"github.com/lugu/qiloop/internal/zzverif/sym"
 )
@@ -21,19 +22,46 @@ func zzCat(parts ...[]byte) []byte {
 	return out
 }
 
+// zzPlainReader: an io.Reader and nothing else (no ReadByte, no Len): what a connection looks like.
+type zzPlainReader struct {
+	data []byte
+	pos  int
+}
+
+func (r *zzPlainReader) Read(p []byte) (int, error) {
+	if r.pos >= len(r.data) {
+		return 0, io.EOF
+	}
+	n := copy(p, r.data[r.pos:])
+	r.pos += n
+	return n, nil
+}
+
 // zzRoundTrip: v's own encoding decodes (with trailing garbage present) consuming exactly the
 // encoder's bytes, to a value of the same signature whose re-encoding is byte-identical.
 func zzRoundTrip(v Value, label string) Value {
 	var buf bytes.Buffer
 	sym.Assert(v.Write(&buf) == nil, label+"/encode-ok")
 	enc := append([]byte{}, buf.Bytes()...)
-	r := bytes.NewReader(append(append([]byte{}, enc...), 0xA5, 0x5A))
-	back, err := NewValue(r)
+	// the source is a buffer (bytes.Reader) or a plain stream that only implements Read (a socket)
+	wire := append(append([]byte{}, enc...), 0xA5, 0x5A)
+	var back Value
+	var err error
+	left := 0
+	if sym.Choose("source-kind", 2) == 0 {
+		r := bytes.NewReader(wire)
+		back, err = NewValue(r)
+		left = r.Len()
+	} else {
+		r := &zzPlainReader{data: wire}
+		back, err = NewValue(r)
+		left = len(r.data) - r.pos
+	}
 	sym.Assert(err == nil, label+"/decode-ok")
 	if err != nil {
 		return nil
 	}
-	sym.Assert(r.Len() == 2, label+"/consumed-exactly")
+	sym.Assert(left == 2, label+"/consumed-exactly")
 	sym.Assert(back.Signature() == v.Signature(), label+"/same-signature")
 	var buf2 bytes.Buffer
 	sym.Assert(back.Write(&buf2) == nil, label+"/reencode-ok")
@@ -135,11 +163,18 @@ func C02ListsDeep() {
 // zzData builds well-formed typed data for signature index k (leaves symbolic), and says whether
 // the signature nests a dynamic value ("m") below a container/struct.
 func zzData(k int) (sig string, data []byte, nestsValue bool) {
-	inner := func() []byte { // a dynamic value: signature + body
-		if sym.Bool("inner-is-string") {
+	inner := func() []byte { // a dynamic value: signature + body, of any scalar signature
+		sigs := []string{"i", "s", "c", "C", "w", "W", "I", "l", "L", "f", "d", "b"}
+		widths := []int{4, 0, 1, 1, 2, 2, 4, 8, 8, 4, 8, 1}
+		j := sym.Choose("inner-signature", len(sigs))
+		if j == 1 {
 			return zzCat(zzStr("s"), zzStr(sym.Str("istr", sym.Choose("istrlen", 2))))
 		}
-		return zzCat(zzStr("i"), zzLE32(sym.U32("iint")))
+		body := sym.Bytes("inner-body", widths[j])
+		if sigs[j] == "b" {
+			body[0] &= 1
+		}
+		return zzCat(zzStr(sigs[j]), body)
 	}
 	count := func(max int) int { return sym.Choose("count", max+1) }
 	switch k {
